@@ -111,6 +111,16 @@ func NewTickDriver(mode string) *TickDriver {
 			add(tickOp{kind: "newEpoch", de: de, signer: "A"})
 		}
 		add(tickOp{kind: "newEpoch", de: 1, signer: "S"}, tickOp{kind: "newEpoch", de: 1, signer: "N"}, tickOp{kind: "nextBlock"})
+	case "C06bare":
+		// a 3-key committee (majority account != Alphabet account) and no system subscriber, so
+		// that nothing but Netmap's own check stands between a weaker witness and the tick
+		add(tickOp{kind: "addPeerIR", k: 0, signer: "A"}, tickOp{kind: "addPeerIR", k: 0, signer: "M"},
+			tickOp{kind: "subscribe", sub: "p1", signer: "A"}, tickOp{kind: "subscribe", sub: "p1", signer: "M"},
+			tickOp{kind: "subscribe", sub: "p2", signer: "A"}, tickOp{kind: "subscribe", sub: "p1", signer: "A"})
+		for _, sg := range []string{"A", "M", "S", "N", "M1"} {
+			add(tickOp{kind: "newEpoch", de: 1, signer: sg})
+		}
+		add(tickOp{kind: "newEpoch", de: 0, signer: "A"}, tickOp{kind: "newEpoch", de: 2, signer: "A"})
 	default:
 		hpanic("TickDriver: unknown mode %s", mode)
 	}
@@ -118,11 +128,18 @@ func NewTickDriver(mode string) *TickDriver {
 }
 
 func (d *TickDriver) Build() *World {
-	w := NewWorld(1)
+	n := 1
+	if d.Mode == "C06bare" {
+		n = 3
+	}
+	w := NewWorld(n)
 	w.Deploy("nns", CompileDir(Repo, "nns"), []any{[]any{[]any{"neofs", "ops@x.y"}}})
 	dn := w.Deploy("netmap", CompileDir(Repo, "netmap"), []any{false, util.Uint160{}, util.Uint160{}, []any{}, []any{}})
 	w.RegisterNNS("netmap", dn.Hash)
-	bal := w.Deploy("balance", CompileDir(Repo, "balance"), []any{false, util.Uint160{}, util.Uint160{}})
+	var bal *Deployed
+	if d.Mode != "C06bare" {
+		bal = w.Deploy("balance", CompileDir(Repo, "balance"), []any{false, util.Uint160{}, util.Uint160{}})
+	}
 	for _, p := range [][2]string{{"p1", "-1000"}, {"p2", "3"}} {
 		c := CompileSource("sub"+p[0], strings.ReplaceAll(subSrc, "REJECT", p[1]), &compiler.Options{Name: p[0], NoEventsCheck: true, NoPermissionsCheck: true,
 			ContractEvents: []compiler.HybridEvent{{Name: "Tick", Parameters: []compiler.HybridParameter{{Parameter: manifest.Parameter{Name: "e", Type: smartcontract.IntegerType}}}}},
@@ -146,7 +163,11 @@ func (d *TickDriver) Build() *World {
 }
 
 func (d *TickDriver) Init(w *World) Model {
-	return &tickModel{legacy: map[int]cand{}, v2: map[int]cand{}, subs: []string{"balance"}, lockLive: d.Mode == "C06"}
+	subs := []string{"balance"}
+	if d.Mode == "C06bare" {
+		subs = nil
+	}
+	return &tickModel{legacy: map[int]cand{}, v2: map[int]cand{}, subs: subs, lockLive: d.Mode == "C06"}
 }
 func (d *TickDriver) NumOps() int { return len(d.ops) }
 func (d *TickDriver) OpName(n *Node, i int) string {
@@ -214,6 +235,10 @@ func (d *TickDriver) Step(x *Exec, n *Node, i int) StepResult {
 		signers, node = []util.Uint160{d.nodes[ki].Hash}, true
 	case "S":
 		signers = []util.Uint160{w.Acct("S").Hash}
+	case "M":
+		signers = []util.Uint160{w.Comm} // committee majority: not the Alphabet on a 3-key committee
+	case "M1":
+		signers = []util.Uint160{w.Members[0].Hash}
 	}
 	expHalt := true
 	unspecified := false // the statement is silent: outcome not compared, but nothing may change
@@ -415,7 +440,7 @@ func (d *TickDriver) Step(x *Exec, n *Node, i int) StepResult {
 			return viol("published-v2", fmt.Sprintf("listNodes()=%v candidates %v", g, wantV))
 		}
 	}
-	if d.Mode == "C06" {
+	if d.Mode == "C06" || d.Mode == "C06bare" {
 		if lb := rd("lastEpochBlock"); !Same(lb.Ret0(), NI(int64(nm.lastBlk))) {
 			return viol("tick-height", fmt.Sprintf("lastEpochBlock=%v want %d", lb.Stack, nm.lastBlk))
 		}
